@@ -10,7 +10,7 @@ LEVEL = 'proof'
 EXPLANATION = ('Lean theorems for EVERY natural number n: parse(print(n)) = n; the text is non-empty, over 0-9a-f, without prefix/sign/padding ("0" only for n = 0); print is injective; '
                'upper case and leading zeros parse to the same value. hex() and int(.,16) are modelled from CPython\'s grammar (ASCII input) and tied by differential '
                'correspondence incl. a malformed-string stream. SOURCE-LEVEL TIE: hex.py is translated from the current source each run (A5/Gen/Src.lean) and proved equal to the model for every input (A5/Props/SrcTie/Hex.lean); the theorems are restated about the translated source.')
-RULE = 'ops: all 16-bit lane values (step 17 quick / 1 thorough) with the other lanes 0 / all-ones, single bits and 2^k-1 up to 2^129, valid ids, random 64-bit, negative ints; parse side: fixed edge strings + random well-formed/malformed ASCII strings'
+RULE = 'ops: values assembled from 2/4/8/16 lanes each drawn from {0, 1, small, sign bit, all-ones, near all-ones, random} (products of special lanes), 2^k +- j, all 16-bit lane values (step 17 quick / 1 thorough) with the other lanes 0 / all-ones, single bits and 2^k-1 up to 2^129, valid ids, random 64-bit, negative ints; parse side: fixed edge strings + random well-formed/malformed ASCII strings'
 ASSUMPTIONS = ['hex()/int(s,16) behave as modelled (ASCII strings; non-ASCII digits/whitespace are outside the model)']
 LEVEL_TEXT = 'machine-checked proof (Lean 4 kernel) for every natural number; the two CPython builtins the code consists of are modelled and tied by differential correspondence'
 TECHNIQUE = 'Lean 4 proof (induction on the digit string) + differential correspondence of the builtin models + source translated to Lean each run (py2lean) with bridge theorems Src = Model'
@@ -56,6 +56,8 @@ def oracle(tier, rng, seeds):
             for v in range(0, 65536, step):
                 ns.append((bg & ~(0xffff << lane)) | (v << lane))
     ns += [1 << k for k in range(64)] + [(1 << k) - 1 for k in range(65)]
+    ns += [gens.structured_u64(rng) for _ in range(20000 if tier == 'quick' else 2000000)]
+    ns += [((1 << k) + j) % (1 << 64) for k in range(64) for j in (1, 2, 9, 10, 15, 16, 17, 255, 256, 257, 4095, 4096, 65535, 65536, -2, -16, -17, -256, -257)]
     ns += [random_valid_id(rng) for _ in range(2000)] + [rng.getrandbits(64) for _ in range(2000 if tier == 'quick' else 1500000)]
     for op in seeds:
         t = op.split()
